@@ -148,7 +148,7 @@ def run(chk):
            'numqi.gellmann.dm_to_gellmann_norm', 'numqi.gellmann.get_density_matrix_distance2')
     chk.register_replayer('gm', replay)
     dims = [2, 3, 4, 5] if quick else [2, 3, 4, 5, 6, 7]
-    chk.bound(d=dims, matrices='arbitrary complex d x d, fully symbolic', batch_shapes='(), (2,), (2,2) for d<=3', tensor_n='1 (all d), 2 (d=2)')
+    chk.bound(d=dims, soft='d=7 diagonal-entry identities are soft obligations (a solver time-out is reported, not counted as a pass or a failure)', matrices='arbitrary complex d x d, fully symbolic', batch_shapes='(), (2,), (2,2) for d<=3', tensor_n='1 (all d), 2 (d=2)')
     chk.out_of_claim('float32; d above the bound; float rounding; torch.scatter with duplicate indices (not produced by this code: checked on every call)')
     ctx = S.new_ctx()
     gm = numqi.gellmann
@@ -184,10 +184,11 @@ def run(chk):
                     acc = SC(ir.ZERO)
                     for i in range(d * d):
                         acc = acc + S.as_sc(vp[i]) * S.as_sc(T[i][r, c])
-                    chk.add(f'sum_i v_i G_i == A [d={d}][{r},{c}]', ctx.facts, H.eq_sc(acc, Am[r, c]), key='matrix_to_gellmann_basis coefficients',
+                    soft = 'probe_forall' if (d >= 7 and r == c) else 'forall'      # d=7 diagonal entries mix six nested radicals: z3 may time out (reported as soft unknowns)
+                    chk.add(f'sum_i v_i G_i == A [d={d}][{r},{c}]', ctx.facts, H.eq_sc(acc, Am[r, c]), key='matrix_to_gellmann_basis coefficients', kind=soft,
                             replay=('gm', lambda m, Am=Am, d=d: payload(m, {'A': Am}, what='m2v_expand', d=d)))
                     chk.add(f'basis_to_matrix(matrix_to_basis(A)) == A [d={d}][{r},{c}]', ctx.facts, H.eq_sc(rec2[r, c], Am[r, c]),
-                            key='gellmann round trip matrix->vector->matrix',
+                            key='gellmann round trip matrix->vector->matrix', kind=soft,
                             replay=('gm', lambda m, Am=Am, d=d: payload(m, {'A': Am}, what='roundtrip_m', d=d)))
             w = H.cx_array(f'w{d}', d * d)
             M = gm.gellmann_basis_to_matrix(w)
